@@ -538,3 +538,17 @@ def run(ctx, facts):
         ne += panic_table(ctx, facts, fid, table)
     ctx.floor("C14 panic edges classified", ne, 20)
     clamp_rule(ctx, facts)
+    # the likelihood estimators always produce a value: no `None` / `Err` is constructed and nothing is propagated with `?`
+    ctx.rule("TOTAL", "MleJaccard::get_mle and get_mle_approx_b1 construct no None / Err and use no `?`: every call returns a value "
+                      "(whether the optimiser converged or stopped on its iteration budget)")
+    for name in ("get_mle", "get_mle_approx_b1"):
+        fid_ = MLE + name
+        if not facts.has(fid_):
+            continue
+        if panic.fn_never_fails(facts, fid_):
+            ctx.ok("TOTAL", fid_, "constructs no None/Err, no `?`", hirq.loc(facts.fn(fid_)))
+        else:
+            bad = [n for n in hirq.walk(facts.fn(fid_)["hir"]) if (n["k"] == "Path" and n["res"].get("path", "").endswith(("::Err", "::None")) and not hirq.from_expansion(n))
+                   or (n["k"] == "Match" and str(n.get("src", "")).startswith("TryDesugar"))]
+            ctx.violation("TOTAL", fid_, "estimator can return no value", hirq.loc(bad[0]) if bad else hirq.loc(facts.fn(fid_)),
+                          "%s can now give up (`%s`): for some valid pair of sketches the caller gets no estimate at all" % (name, hirq.show(bad[0])[:40] if bad else "?"))
